@@ -686,6 +686,7 @@ func (p *Policy) BlockAccountInternalDeferrable(ic *interop.Context, hash util.U
 			cache.blockedAccounts = append(cache.blockedAccounts[:i+1], cache.blockedAccounts[i:]...)
 			cache.blockedAccounts[i] = hash
 		}
+		p.markCommitteeDirty(ic)
 		handleRes(true)
 	}
 
@@ -698,6 +699,14 @@ func (p *Policy) BlockAccountInternalDeferrable(ic *interop.Context, hash util.U
 	}
 
 	continuation()
+}
+
+// markCommitteeDirty makes native Neo recompute the next committee at the end of
+// the current epoch: the list of blocked accounts is an input of that computation.
+func (p *Policy) markCommitteeDirty(ic *interop.Context) {
+	if c, ok := ic.DAO.GetRWCache(p.NEO.Metadata().ID).(*NeoCache); ok {
+		c.votesChanged = true
+	}
 }
 
 // unblockAccount is a Policy contract method that removes the given account hash from
@@ -715,6 +724,7 @@ func (p *Policy) unblockAccount(ic *interop.Context, args []stackitem.Item) stac
 	ic.DAO.DeleteStorageItem(p.ID, key)
 	cache := ic.DAO.GetRWCache(p.ID).(*PolicyCache)
 	cache.blockedAccounts = append(cache.blockedAccounts[:i], cache.blockedAccounts[i+1:]...)
+	p.markCommitteeDirty(ic)
 	return stackitem.NewBool(true)
 }
 
